@@ -113,3 +113,42 @@ PROPS['C09'] = _srv(209, extra_tests=['TestC09NoAlias', 'TestC09Burst', 'TestC09
          'Lookup concurrently; the same tests under the Go race detector (thorough, and a subset in quick).')
 PROPS['C09']['trusted'] = PROPS['C09']['trusted'] + ['the Go race detector (go1.26.8 -race) reports races only on the schedules it happens to see',
                                                       'real-time bursts depend on the scheduler: margins of 0.7 s per client are left for each 0.6 s probe']
+
+CONFIG_RULE = ('configurations through the real server.New (fake libif own address), each built 5 times: 25 directed configurations (witnesses of F5a-e and their '
+               'in-range neighbours) then generated ones in three streams - all fields valid; exactly one of 39 fault kinds (network unparsable/IPv6//31-32, lease '
+               'unparsable/<1m/2^32 s/200 years/fraction next to a float rounding boundary, router/DNS/NTP unparsable or IPv6 or empty element, lists of 64-70, domain '
+               '256-300 bytes, range malformed/unparsable/IPv6/reversed/outside, own address missing/outside/network address, hardware address unparsable / second '
+               'spelling of an earlier key / the server\'s own, client address unparsable/IPv6/outside/duplicate/own, client router/DNS/NTP bad or oversize, host name '
+               '256-300 bytes); each fault independently with probability 6%. Networks /16-/30 with and without host bits, lists of 0-63 entries (boundary 60-63 '
+               'stressed), texts of 0-255 bytes (253-255 stressed), 0-5 clients from a pool of 6 hardware addresses in 4 spellings, 4 probe hardware addresses. '
+               'Non-trivial = every case (server.New runs to its verdict); distinct by full case line.')
+CONFIG_TRUSTED = ['lib/server/server.go (New, dhcpOptions), lib/server/leaseopts/leaseopts.go and the option constructors of lib/dhcpmsg/assemble.go are modelled by hand in '
+                  'coq/model/Config.v; the tie is the differential run',
+                  'the standard-library parsers (net.ParseCIDR, net.ParseIP/To4, net.ParseMAC, time.ParseDuration, strings.Split) classify each string for the model as '
+                  'they do for the server (the harness calls them on the same strings); the protobuf text parser and cmd/psa-dhcpd are outside the model',
+                  'lib/libif is replaced by the recording fake (own address set by the harness)']
+PROPS['C18'] = dict(
+    tests=['TestC18'],
+    # 1810: valid_config_b / expected ranges, bindings, options evaluated on the observation; 1811: the five constructions agree
+    monitor_tags={1810, 1811},
+    panic_is_violation={1801},
+    # new_server is proved to accept exactly valid_config and to produce exactly the expected state (C18_sound, C18_complete,
+    # C18_applied_exactly): a disagreement with the model is a configuration on which the implementation differs from the specification
+    spec_equal_tags={1801},
+    rule=CONFIG_RULE, trusted=CONFIG_TRUSTED,
+    assumptions=['Go map iteration order is arbitrary (the theorems quantify over all permutations of the client list)',
+                 'uint32(x) of an int64 truncates (Go specification); the lease option is computed with integer division (repair F5e)'],
+)
+PROPS['C07'] = dict(
+    tests=['TestC07'],
+    # 1820: Spec.expected_options against the option list and against the decoded OFFER and ACK payloads the implementation assembled
+    monitor_tags={1820},
+    panic_is_violation={1802},
+    spec_equal_tags={1802},
+    rule='the configuration generator of C18 (3 of 4 all-valid, 1 of 4 with one fault) and its 25 directed configurations; for each of the 4 probe hardware '
+         'addresses (entries with overrides, the server\'s own, an unknown one) the option list of dhcpOptions and the DHCP payloads of replies.AssembleOffer / '
+         'AssembleACK built from it (random xid, broadcast flag, yiaddr). Non-trivial = accepted configuration; distinct by full case line.',
+    trusted=CONFIG_TRUSTED + ['OFFER/ACK payloads are produced by calling replies.AssembleOffer/AssembleACK on the option list, as sendMsg does; the frames of a running '
+                              'server are compared byte for byte in the server histories (SRV)'],
+    assumptions=['the address stays unavailable to others for the advertised time: C05/C11 (LeaseProofs), with reserved_ns as the duration passed to UpdateClient'],
+)
